@@ -1,14 +1,17 @@
 /* Contracts for src/lexer.c (C09.lex.*).
  *
- * tokenize() is enforced against the contract below for EVERY NUL-terminated
- * buffer of length __verif_len <= LEX_MAX_LEN (ghost length: an extern that is
- * never assigned, hence arbitrary).  Nothing is known about the buffer except
- * source[__verif_len] == 0: bytes before it may be anything, including 0.
+ * tokenize() is enforced against the contract below for EVERY NUL-terminated buffer of length
+ * __verif_len <= LEX_MAX_LEN (ghost length, arbitrary).  Nothing is known about the buffer except
+ * source[__verif_len] == 0: the bytes before it may be anything, including 0.
  *
- * The allocating libc callees are REPLACED BY CONTRACTS (CBMC 6.11 refuses real
- * malloc/realloc/free under a loop contract; a replaced call whose ensures
- * clause says __CPROVER_is_fresh is accepted and bounds-checked - probed).
- * These are assumed contracts on dependencies (listed in obligations/c09.py).
+ * CBMC 6.11 refuses real malloc/realloc/free inside a loop that is under a loop contract.  Probed: a call that
+ * is REPLACED BY A CONTRACT whose ensures clause says __CPROVER_is_fresh is accepted there, and the block it
+ * returns is bounds-checked.  So malloc is replaced by the contract below; the non-allocating libc functions
+ * get stub bodies that assert what the caller owes.  All of these are assumed contracts on dependencies and are
+ * listed in obligations/c09.py.
+ *
+ * In witness mode (-DVERIF_WITNESS: bounded search for a concrete failing input after a refutation, no DFCC) the
+ * libc stubs are left out and CBMC's own models of malloc/realloc/free/str* are used on the real code.
  */
 #ifndef LEXER_CONTRACTS_H
 #define LEXER_CONTRACTS_H
@@ -29,9 +32,10 @@ struct lex_ghost {
     int cls;               /* written by the case-split ghost statement at the top of the main loop body; never read */
 };
 extern struct lex_ghost __verif_lx;
-/* the token array's block: result of the first malloc (realloc grows it in place).  Kept OUTSIDE __verif_lx:
- * it is assigned once, before the main loop, is not a loop assigns target and therefore stays a constant of
- * the symbolic execution inside the loop (see the ghost statement at the top of the loop body). */
+/* the token array's block: result of the first malloc (realloc grows it in place); NULL until then.  Set by
+ * the ghost statement `__verif_tok = tokens;` right after that malloc.  Kept OUTSIDE __verif_lx: it is assigned
+ * once, before the main loop, is not a loop assigns target and therefore stays a constant of the symbolic
+ * execution inside the loop (see the ghost statements at the top of the loop body). */
 extern const void *__verif_tok;
 extern size_t __verif_len;     /* ghost: length of the source buffer; never assigned */
 extern size_t __verif_S;       /* ghost: usable size of the token array's block; never assigned (see below) */
@@ -40,6 +44,7 @@ extern size_t __verif_S;       /* ghost: usable size of the token array's block;
 #endif
 #define LEX_ARENA_MAX (sizeof(Token) * ((size_t)1 << 26))
 
+#ifndef VERIF_WITNESS
 /* ---- assumed contracts on libc allocation functions (replaced calls) ----
  *
  * Allocator model for the token array.  tokenize holds exactly one pointer to the array's block and
@@ -55,11 +60,9 @@ extern size_t __verif_S;       /* ghost: usable size of the token array's block;
  * All other malloc calls (text buffers) return a fresh block of exactly n bytes. */
 void *malloc(size_t n)
 __CPROVER_requires(n > 0)
-__CPROVER_assigns(__verif_tok == NULL: __verif_tok, __verif_lx.tok_bytes)
-__CPROVER_ensures(__CPROVER_is_fresh(__CPROVER_return_value, __CPROVER_old(__verif_tok) == NULL ? __verif_S : n))
-__CPROVER_ensures(__CPROVER_old(__verif_tok) == NULL ==>
-                  (__verif_tok == __CPROVER_return_value && __verif_lx.tok_bytes == n && n <= __verif_S))
-__CPROVER_ensures(__CPROVER_old(__verif_tok) != NULL ==> __verif_tok == __CPROVER_old(__verif_tok));
+__CPROVER_assigns(__verif_tok == NULL: __verif_lx.tok_bytes)
+__CPROVER_ensures(__CPROVER_is_fresh(__CPROVER_return_value, __verif_tok == NULL ? __verif_S : n))
+__CPROVER_ensures(__verif_tok == NULL ==> (__verif_lx.tok_bytes == n && n <= __verif_S));
 
 /* ---- assumed contracts on non-allocating libc functions, given as stub BODIES (cheaper than replacement:
  * no write sets are built per call).  Each asserts what the caller owes. ---- */
@@ -75,7 +78,7 @@ void *realloc(void *p, size_t n)
 }
 
 /* strdup: the argument holds a NUL at ghost index slen inside its object (slen is set by a ghost statement
- * right after the lexer's own `x[len] = '\0'`, or by the snprintf stub).  The result is an arbitrary pointer:
+ * right after the lexer's own `x[len] = '\0'`, or after snprintf).  The result is an arbitrary pointer:
  * tokenize only stores it (a dereference of it would be flagged as invalid). */
 char *strdup(const char *s)
 {
@@ -110,13 +113,9 @@ int strcmp(const char *a, const char *b)
     return nondet_int();
 }
 
-/* ---- contracts of the unit's own functions ---- */
+#endif /* !VERIF_WITNESS */
 
-static TokenType keyword_or_identifier(const char *str)
-__CPROVER_requires(__CPROVER_r_ok(str, __verif_lx.slen + 1) && str[__verif_lx.slen] == 0)
-__CPROVER_assigns()
-__CPROVER_ensures(__CPROVER_return_value >= TOKEN_EOF && __CPROVER_return_value <= TOKEN_RESOURCE)
-__CPROVER_ensures(__CPROVER_return_value != TOKEN_EOF);
+/* ---- contract of the unit's own function ---- */
 
 /* The two input objects are allocated by the harness itself (exact sizes, arbitrary content) and the
  * precondition only says they are valid for those sizes.  Reason (measured): when __CPROVER_is_fresh builds
@@ -150,7 +149,8 @@ __CPROVER_ensures(__CPROVER_return_value != NULL ==>
  * The table content is arbitrary (set up by lex_ctype_init in the harness) except for the three facts the
  * lexer's termination and bounds actually rest on (true in every glibc locale):
  *   isdigit(0) == isalpha(0) == isalnum(0) == 0,  and  isalpha(c) => isalnum(c). */
-#ifdef LEX_CTAB_CONCRETE
+#ifdef LEX_CTAB_CONCRETE    /* witness mode only: glibc's "C" locale table (contracts/ctab_c_locale.inc, generated by
+                             * printing (*__ctype_b_loc())[-128..255]) so that a found input replays natively */
 static const unsigned short __verif_ctab[384] = {
 #include "ctab_c_locale.inc"
 };
@@ -163,7 +163,7 @@ const unsigned short **__ctype_b_loc(void) { return &__verif_ctab_mid; }
 static void lex_ctype_init(void)
 {
     __verif_ctab_mid = &__verif_ctab[128];
-#if !defined(LEX_NO_CTAB) && !defined(LEX_CTAB_CONCRETE)
+#ifndef LEX_CTAB_CONCRETE
     __CPROVER_havoc_object(__verif_ctab);
     /* constant-range quantifier: expanded by CBMC into 384 conjuncts over ONE array version (a 384-iteration
      * initialisation loop gives 384 array versions and a 38 M clause formula - measured) */
@@ -176,17 +176,15 @@ static void lex_ctype_init(void)
 /* ---- case split of the main loop body (strength X) ----
  * One iteration of the main loop is checked per class of its first byte c = source[i] (the loop guard has
  * already established c != 0).  The ghost statement at the top of the loop body calls lex_case(c), which
- * assumes the class predicate selected by -DLEX_CASE=k.  Class 6 is by definition the complement of classes
- * 0..5, so the seven classes cover every byte whatever the ctype table says (also checked: h_cases).  The
+ * assumes the class predicate selected by -DLEX_CASE=k.  Class 4 is by definition the complement of classes
+ * 0..3, so the five classes cover every byte whatever the ctype table says (also checked: h_cases).  The
  * classes may overlap; that only means some iterations are checked twice.  Without -DLEX_CASE nothing is
- * assumed (the unsplit obligation: same proof in one query, about 8 minutes). */
+ * assumed (unsplit: the same proof in one query, measured 8 minutes; kept as the thorough-tier obligation). */
 #define LEX_P0(c) (isspace(c) || (c) == '#' || (c) == '/')                 /* blanks, comments (and '/') */
-#define LEX_P1(c) ((c) == '\'')                                            /* character literal */
-#define LEX_P2(c) ((c) == '"')                                             /* string literal */
-#define LEX_P3(c) (isdigit(c) || (c) == '-')                               /* number (and '-', '->') */
-#define LEX_P4(c) (isalpha(c) || (c) == '_')                               /* identifier / keyword */
-#define LEX_P5(c) ((c) == ':' || (c) == '=' || (c) == '!' || (c) == '<' || (c) == '>')   /* two-character operators */
-#define LEX_P6(c) (!(LEX_P0(c) || LEX_P1(c) || LEX_P2(c) || LEX_P3(c) || LEX_P4(c) || LEX_P5(c)))
+#define LEX_P1(c) ((c) == '\'' || (c) == '"')                              /* character / string literal */
+#define LEX_P2(c) (isdigit(c) || (c) == '-')                               /* number (and '-', '->') */
+#define LEX_P3(c) (isalpha(c) || (c) == '_')                               /* identifier / keyword */
+#define LEX_P4(c) (!(LEX_P0(c) || LEX_P1(c) || LEX_P2(c) || LEX_P3(c)))    /* the rest: operators, unknown bytes */
 #define LEX_PASTE2(a, b) a##b
 #define LEX_PASTE(a, b) LEX_PASTE2(a, b)
 static int lex_case(char c)
@@ -208,6 +206,9 @@ int snprintf(char *s, size_t n, const char *fmt, ...)
 {
     (void)fmt;
     __CPROVER_assert(n == 0 || __CPROVER_w_ok(s, n), "libc: snprintf destination valid for n bytes");
+#ifdef VERIF_WITNESS
+    if (n > 1) { s[0] = '0'; s[1] = 0; } else if (n == 1) s[0] = 0;
+#endif
     return nondet_int();
 }
 static size_t lex_nul_index(const char *s, size_t n)
